@@ -173,9 +173,15 @@ func (a *AvailableCommands) Decode(c *proto.PacketContext, rd io.Reader) error {
 
 		for i := 0; i < len(queue); {
 			node := queue[i]
+			wasBuilt := node.Built != nil
 			ok, err = node.toNodes(wireNodes)
 			if err != nil {
 				return err
+			}
+			if !wasBuilt && node.Built != nil {
+				// The node itself now exists even if its children are not linked yet: nodes that
+				// redirect to it can be built in the next round, so this round made progress.
+				cycling = true
 			}
 			if ok {
 				cycling = true
